@@ -353,9 +353,16 @@ def main(argv=None):
 
     known = [k for k in load_known() if k.get('property') == pid and k.get('status') == 'known']
     known_keys = {k['key']: k for k in known}
+    # R5a names the operation a value comes from (`unwrap<Pos>@div#1`); the same site re-written to call a helper that divides
+    # (`@to_decimal#1`) is the same finding
+    for k in known:
+        if '|R5a|' in k['key']:
+            known_keys.setdefault(re.sub(r'@[^|@]*(?=(\|quotient-may-underflow)?$)', '@*', k['key']), k)
     viol = [o for o in obs if o.status == VIOLATION]
-    new_viol = [o for o in viol if o.key not in known_keys]
-    kf = [o for o in viol if o.key in known_keys]
+    def is_known(o):
+        return o.key in known_keys or ('|R5a|' in o.key and re.sub(r'@[^|@]*(?=(\|quotient-may-underflow)?$)', '@*', o.key) in known_keys)
+    new_viol = [o for o in viol if not is_known(o)]
+    kf = [o for o in viol if is_known(o)]
 
     vdir = os.path.join(VERIF, 'evidence', 'violations')
     os.makedirs(vdir, exist_ok=True)
@@ -364,7 +371,7 @@ def main(argv=None):
             os.remove(os.path.join(vdir, fn))
     lines = []
     for o in kf:
-        lines.append('KNOWN-FINDING: property=%s %s %s' % (pid, o.key, known_keys[o.key].get('what', o.detail)))
+        lines.append('KNOWN-FINDING: property=%s %s %s' % (pid, o.key, (known_keys.get(o.key) or known_keys[re.sub(r'@[^|@]*(?=(\|quotient-may-underflow)?$)', '@*', o.key)]).get('what', o.detail)))
     for n, o in enumerate(new_viol):
         path = os.path.join(vdir, '%s-%d.json' % (pid, n))
         with open(path, 'w') as f:
